@@ -152,6 +152,8 @@ func runC11(c *Ctx) {
 		}
 	}
 
+	c.Rule("C11.M", "message payloads live in buffers owned by the message", 1)
+	rulePooledMemory(c, p, "C11.M", "agent/websockets")
 	c.Rule("C11.S", "shim session IDs are unique and the client is told the key its connection is stored under", 2)
 	ruleShimSessionIDs(c, p, "C11.S")
 
@@ -331,6 +333,28 @@ func runC11(c *Ctx) {
 				bad = "an append at " + p.Pos(i.Pos()) + " does not add the serialised message at the end of the accumulated slice"
 			}
 		})
+		// once something was received, every return hands the accumulated slice back (with a nil error)
+		for _, op := range ChanOpsOf(rs) {
+			if op.Kind != "recv" || op.Val == nil || NamedTypeRel(op.Val.Type()) != "agent/websockets.message" {
+				continue
+			}
+			for _, u := range Refs(op.Val) {
+				call, ok := u.(*ssa.Call)
+				if !ok || CalleeName(call.Common()) != "(*"+pkg+".message).Serialize" {
+					continue
+				}
+				h, _ := (&Walk{Target: func(i ssa.Instruction) bool {
+					r, isR := i.(*ssa.Return)
+					if !isR || (rs.Recover != nil && i.Block() == rs.Recover) {
+						return false
+					}
+					return IsNilConst(ReturnValue(r, 0)) || !IsNilConst(ReturnValue(r, 1))
+				}}).FromInstr(call)
+				if h != nil {
+					bad = "after a message was received, the return at " + p.Pos(h.Pos()) + " discards the accumulated messages (nil slice or an error): messages already taken from the queue are lost when the backend closes"
+				}
+			}
+		}
 		// returned slice derives from appends only
 		for _, r := range Returns(rs) {
 			v := ReturnValue(r, 0)
